@@ -102,7 +102,8 @@ func (e *Engine) verifyFunc(fn *ssa.Function, c *Contract, prop string) (rep *Fu
 				panic(r)
 			}
 			rep.Unsupported = u.msg
-			rep.Obls = append(e.obls, &Obligation{Kind: "engine", Fn: key, Label: "unsupported", Unsupp: u.msg})
+			// the function could not be executed completely: its partial obligations are meaningless
+			rep.Obls = []*Obligation{{Kind: "engine", Fn: key, Label: "unsupported", Unsupp: u.msg}}
 			e.finishReport(rep)
 		}
 	}()
